@@ -51,6 +51,32 @@ add("C20", "xenum", "exploration",
     "Names are drawn from 2-4 content patterns per length; names that cannot be marshalled (> ~65200 bytes) are outside the end-to-end part.",
     "DESIGN.md 4 C20")
 
+add("C04", "xenum+seqx", "model_checking",
+    "bounded exhaustive enumeration of accepted byte strings and well-formed values per codec plus explicit-state enumeration of Marshal/Unmarshal operation sequences on live objects, against hand-written wire encoders",
+    "13 codecs: every well-formed value from field alphabets round-trips and equals the hand encoding; every generated byte string a decoder accepts re-encodes to something no longer, which decodes to the same value and is what Marshal returns on fresh and on reused objects; every operation sequence (Marshal, Unmarshal of 4 valid and 3 invalid encodings) up to depth 3/4 on one object; 4 request decoders x 4 bodies x all 65536 tags; batch lists over 7 element types up to length 3/4; Rust vectors decode and re-encode byte for byte.",
+    "Arbitrary accepted strings are represented by the structured generators; contents of an object after a rejected Unmarshal are treated as unspecified; hand encoders are the trusted reference of the wire format.",
+    "DESIGN.md 4 C04")
+add("C08", "seqx", "model_checking",
+    "depth-bounded explicit-state enumeration of request histories (origin x blind per step) of one client on one live attester, every step the full client/attester/issuer flow, against an independent HKDF / hash_to_field / crypto/elliptic reference for the anonymous issuer origin ID",
+    "Every history of <= 2 (quick) / <= 3 (thorough) requests over 3 origins x 4 blinds for 3 clients x 2 index-key sets: the returned ID equals the reference at every step (hence is stable across blinds, nonces, challenges and history position), Evaluate's blinded request key equals f*requestKey, and the 18 (client, index key) IDs are pairwise distinct.",
+    "Client secrets, index keys and blinds are boundary-scalar alphabets; the reference (RFC 9380 XMD, HKDF-SHA-384) is in checks/c08/ref.go.",
+    "DESIGN.md 4 C08")
+add("C09", "seqx", "model_checking",
+    "breadth-first search to a fix-point over the real RateLimitedAttester (cache cloned through the verif hook, canonical state = sorted dump of all bookkeeping maps) stepped in lock-step with a two-map reference model",
+    "All reachable states of the alphabet {clients A,B + unverified U} x {3 origins, two sharing an index key} x {2 anonymous origin IDs} x {verify, verify with bad signature, verify with wrong blind, finalize}: in every state every enabled event is applied; verdict, returned ID and the accepted-bindings map must equal the model; rejected calls leave bindings in force; unverified clients are always refused. 784 states / 20384 transitions in thorough.",
+    "Assumes the attester's decisions depend only on its arguments and the three maps that are dumped; event arguments are precomputed honest byte strings.",
+    "DESIGN.md 4 C09")
+add("C14", "xenum+envx", "exploration",
+    "bounded exhaustive differential enumeration against crypto/ed25519 and math/big references: seeds x message lengths for derive/sign, every entropy-fault script with <= 1/2 deviations for GenerateKey, 54 A x 54 R x 17 S x 3 messages plus all bit flips for Verify, all triples/pairs of a 309/786-scalar limb-boundary alphabet for the scalar arithmetic, alphabet scalars x 14 points for the point operations",
+    "Byte equality with the standard library for key derivation and signatures, identical read sequence and results under every enumerated entropy script, identical Verify verdicts on torsion/non-canonical/boundary inputs, and agreement of the internal scalar/point arithmetic with math/big and an affine Edwards reference (through the verif hook).",
+    "Arithmetic equivalence is reached only through the boundary alphabets (limb patterns, q*L+r bands): a wrong carry needing an operand outside them is invisible. This is the thinnest claim of the set.",
+    "DESIGN.md 4 C14")
+add("C15", "xenum", "exploration",
+    "bounded exhaustive enumeration of seeds x blinds x contexts x messages and all ordered pairs of (blind, context) against a math/big Edwards reference and three independent verifiers",
+    "Blinded key == compress(r*A) with r = SHA-512(blind||00||ctx)[:32] mod L; signatures deterministic, valid under the blinded key for crypto/ed25519, this package and a math/big RFC 8032 verifier, invalid under A; unblind inverts blind; blinding commutes; different blind or context gives a different key.",
+    "Seeds, blinds, contexts are fixed alphabets; blinds are passed as exact-capacity slices (aliasing is C16's subject).",
+    "DESIGN.md 4 C15")
+
 NOT_APPLICABLE = {}
 
 ALL = ["C%02d" % i for i in range(1, 21)]
